@@ -104,5 +104,67 @@ for k_ in (5, 1, 9):
     d[k_] = [k_]
 ok(list(d) == [5, 1, 9] and list(d.items())[1] == (1, [1]), "dict order")
 ok(divmod(10 ** 30 + 7, 4) == ((10 ** 30 + 7) // 4, 3) and 4 ** 31 == 2 ** 62, "int arithmetic")
+# CPython's int <-> str digit limit (pyvc/calls.py INT_MAX_STR_DIGITS): int(str) and str(int) raise ValueError beyond 4300 digits
+ok(sys.get_int_max_str_digits() == 4300, "sys.get_int_max_str_digits() == 4300")
+for n_digits, want in ((4300, True), (4301, False)):
+    try:
+        int("1" * n_digits)
+        got = True
+    except ValueError:
+        got = False
+    ok(got == want, f"int of a {n_digits}-digit string")
+    try:
+        int("0" * n_digits)
+        got = True
+    except ValueError:
+        got = False
+    ok(got == want, f"int of {n_digits} zeros (leading zeros count)")
+for e_, want in ((4299, True), (4300, False)):
+    try:
+        str(10 ** e_)
+        got = True
+    except ValueError:
+        got = False
+    ok(got == want, f"str(10**{e_})")
+# numpy int64 scalar (op) Python int: the int is converted to int64 first (NEP 50): OverflowError exactly outside [-2**63, 2**63)
+x = nsum(array([2, 3], dtype=int))
+import operator
+import warnings
+warnings.simplefilter("ignore")
+for opn in ("mod", "add", "sub", "mul", "floordiv", "truediv"):
+    for other, want in ((2 ** 63 - 1, True), (2 ** 63, False), (-2 ** 63, True), (-2 ** 63 - 1, False), (4 ** 31, True), (4 ** 32, False)):
+        try:
+            getattr(operator, opn)(x, other)
+            got = True
+        except OverflowError:
+            got = False
+        want = want or opn == "truediv"          # true division goes through float: never OverflowError
+        ok(got == want, f"int64 {opn} {other}")
+        try:
+            getattr(operator, opn)(other, x)
+            got = True
+        except OverflowError:
+            got = False
+        ok(got == want, f"{other} {opn} int64")
+ok(bool(x < 2 ** 70) and not bool(x == 2 ** 70), "comparisons of an int64 scalar with a large Python int do not overflow")
+ok(isinstance(int(x) % 4 ** 40, int), "int(int64) % large int is Python arithmetic")
+# C19 library contracts: max / where(2-D) / unique / intersect1d / argmax / int(log(n)/log(4))
+from numpy import max as nmax, unique, intersect1d, argmax, log
+rng = random.Random(19)
+for _ in range(300):
+    rows = rng.randint(1, 6)
+    m = array([[rng.randint(0, 3) for _ in range(4)] for _ in range(rows)])
+    top = nmax(m)
+    ok(all(m[r][c] <= top for r in range(rows) for c in range(4)) and any(m[r][c] == top for r in range(rows) for c in range(4)), "max of a matrix")
+    u = unique(where(m == top)[0])
+    ok(list(u) == [r for r in range(rows) if any(m[r][c] == top for c in range(4))], "unique(where(mask2d)[0])")
+    a = sorted(rng.sample(range(10), rng.randint(0, 6)))
+    b = sorted(rng.sample(range(10), rng.randint(0, 6)))
+    w = intersect1d(array(a, dtype=int), array(b, dtype=int))
+    ok(list(w) == sorted(set(a) & set(b)), "intersect1d")
+    row = [rng.randint(0, 3) for _ in range(4)]
+    ok(int(argmax(array(row))) == min(i for i in range(4) if row[i] == sorted(row)[-1]), "argmax: first maximum")
+for k_ in range(0, 32):
+    ok(int(log(4 ** k_) / log(4)) == k_, f"int(log(4**{k_}) / log(4)) == {k_}")
 print(json.dumps({"checks": checks, "mismatches": bad[:10]}))
 sys.exit(1 if bad else 0)
